@@ -533,10 +533,23 @@ pub fn check_c03(scn: &LoopScn, r: &RunResult, out: &LoopOut) -> Vec<Violation> 
 /// Replays the documented loop on the logged clock readings of the rounds
 /// that actually ran. Returns `(violations, first collecting round)`.
 fn replay_rule(scn: &LoopScn, p: &Parsed, out: &LoopOut, c19: bool) -> Vec<Violation> {
+    replay_rule_on(scn, p, out, c19, None)
+}
+
+/// `complete_rounds = Some(k)`: the history was cut off (step budget) after
+/// k complete rounds; only "ran longer than the rule allows" can be judged.
+fn replay_rule_on(
+    scn: &LoopScn,
+    p: &Parsed,
+    out: &LoopOut,
+    c19: bool,
+    complete_rounds: Option<usize>,
+) -> Vec<Violation> {
     let mut vs = Vec::new();
     let f = scn.clock.frequency;
     let t_eff = scn.eff_threads();
-    let rounds = rounds_of(p, scn);
+    let truncated = complete_rounds.is_some();
+    let rounds = complete_rounds.unwrap_or_else(|| rounds_of(p, scn));
     let minp = scn.min_time.map(dur_picos).unwrap_or(0);
     let maxp = scn.max_time.map(dur_picos).unwrap_or(u128::MAX);
     let skip = scn.skip_ext.unwrap_or(false);
@@ -557,7 +570,7 @@ fn replay_rule(scn: &LoopScn, p: &Parsed, out: &LoopOut, c19: bool) -> Vec<Viola
     // All threads take part in every round.
     for t in 0..t_eff {
         let n = p.by_thread.get(t).map_or(0, |x| x.len());
-        if n != rounds {
+        if n != rounds && !truncated {
             vs.push(v(class, format!("thread {t} recorded {n} samples while thread 0.. recorded {rounds} rounds")));
             return vs;
         }
@@ -605,6 +618,11 @@ fn replay_rule(scn: &LoopScn, p: &Parsed, out: &LoopOut, c19: bool) -> Vec<Viola
                     ),
                 ));
             }
+            break;
+        }
+        if r >= rounds && truncated {
+            // Cut off by the step budget while the rule still says continue:
+            // nothing to report.
             break;
         }
         if r >= rounds {
@@ -665,7 +683,7 @@ fn replay_rule(scn: &LoopScn, p: &Parsed, out: &LoopOut, c19: bool) -> Vec<Viola
             break;
         }
     }
-    if vs.is_empty() && out.caller_panic.is_none() {
+    if vs.is_empty() && out.caller_panic.is_none() && !truncated {
         if out.durations.len() != stored {
             vs.push(v(
                 if c19 { "tuning_rule" } else { "stored_samples" },
@@ -674,6 +692,22 @@ fn replay_rule(scn: &LoopScn, p: &Parsed, out: &LoopOut, c19: bool) -> Vec<Viola
         }
     }
     vs
+}
+
+/// A run of a time-limited scenario that exhausted the step budget: a
+/// violation only if the documented rule, evaluated on the readings of the
+/// rounds that completed, had already said "stop" (the loop ran longer than
+/// allowed, e.g. forever). If the rule still says "continue", the scenario
+/// simply needs more rounds than the budget covers — inconclusive, not a
+/// finding.
+pub fn judge_step_budget(scn: &LoopScn, r: &RunResult) -> Vec<Violation> {
+    let p = parse(r);
+    let t_eff = scn.eff_threads();
+    let complete = (0..t_eff)
+        .map(|t| p.by_thread.get(t).map_or(0, |x| x.iter().take_while(|s| s.complete()).count()))
+        .min()
+        .unwrap_or(0);
+    replay_rule_on(scn, &p, &LoopOut::default(), false, Some(complete))
 }
 
 pub fn check_c04(scn: &LoopScn, r: &RunResult, out: &LoopOut) -> Vec<Violation> {
